@@ -109,3 +109,24 @@ func (s *TagScanner) PostProcessProperties(properties []*component_definition.Pr
 	}
 	return nil, nil
 }
+
+// Contributor is a definition-registry post-processor that contributes definitions of
+// components which were never registered with the container (DefinitionRegistry.RegisterMeta).
+type Contributor struct {
+	processors.DefaultTagScanDefinitionRegistryPostProcessor
+	H    *Handle
+	Objs []any
+}
+
+func (c *Contributor) Naming() string { return c.H.Alias }
+
+func (c *Contributor) PostProcessDefinitionRegistry(registry container.DefinitionRegistry, component any, componentName string) error {
+	if componentName != c.H.Alias {
+		return nil
+	}
+	// exactly one invocation (the one for the contributor itself) registers the definitions
+	for _, o := range c.Objs {
+		registry.RegisterMeta(component_definition.NewMeta(o))
+	}
+	return nil
+}
